@@ -14,9 +14,10 @@ def prbs_seq(n, state=1):
 
 class C18(Prop):
     pid = "C18"
-    lean_targets = ["M17.Props.C18"]
+    lean_targets = ["M17.Props.C18", "M17.Props.C18B"]
     theorems = ["M17.C18.gen_consts", "M17.C18.period_511", "M17.C18.nine_bits_determine", "M17.C18.locks_within_27",
-                "M17.C18.locked_step", "M17.C18.exact_count", "M17.C18.unlock_at_25", "M17.C18.inv_at_lock"]
+                "M17.C18.locked_step", "M17.C18.exact_count", "M17.C18.unlock_at_25", "M17.C18.inv_at_lock",
+                "M17.C18B.getBit_pack", "M17.C18B.counts_at_lock", "M17.C18B.clean_run", "M17.C18B.rx_is_run", "M17.C18B.bert_end_to_end"]
     level_text = ("Lean 4 theorems about the modelled PRBS9 object: the generator from the reset state has period exactly 511 with 256 ones "
                   "(kernel evaluation of the whole orbit); a validator with run counter 0 and ANY register content, fed any phase, locks at some "
                   "bit 18..27 with its register equal to the generator's and not earlier (nine shifted-in bits determine the register; "
@@ -24,7 +25,11 @@ class C18(Prop):
                   "stays locked and err/bit counters grow by exactly the errors / bits seen (sliding-window invariant over the 128-bit "
                   "history, size_t/uint32 wrap explicit); the first window reaching 25 unlocks. Constants regenerated from Util.h; C++ "
                   "object compared with the model on all 511 phases x prior histories, single errors, and random error densities. "
-                  "The clause 'BERT frames passed through the frame decoder re-lock with zero errors' is discharged in C01 (bert_roundtrip).")
+                  "The clause 'BERT frames passed through the frame decoder re-lock with zero errors' is the theorem bert_end_to_end "
+                  "(M17.Props.C18B): clean specification-encoded frames cut from ANY phase of the sequence, decoded by the frame-decoder model "
+                  "from any state (C01F.bert_roundtrip), unpacked by the model of m17-demod's decode_bert (getBit_pack: get_bit_index undoes "
+                  "to_byte_array) and fed to any freshly unlocked validator lock it within the first frame, count zero errors for any number of "
+                  "frames, and count 18 + (bits since lock) bits (clean_run, counts_at_lock).")
     design_ref = "DESIGN.md §5 C18"
     level_note = ("Trusted: Lean kernel; dump_tables.cpp; hand translation M17/Model/Prbs.lean (history bitmap as List Bool; the constructor's "
                   "uninitialised history is modelled as cleared, it is never read before the clearing at lock) validated by the correspondence "
@@ -34,6 +39,43 @@ class C18(Prop):
             "(all 511 phases) + error pattern: none, every single position 0..599, random densities 0.5%..30%; C++ PRBS9 vs Lean model on "
             "sync(), errors(), bits(), register, counters and a digest of every validate() return value; oracle: lock within 27 bits and "
             "exact counts recomputed independently in python; distinct = distinct scenario lines")
+
+    def setup_drivers(self):
+        from lib import demodlib
+        return [self.impl_driver(None), demodlib.drivers()[0]]
+
+    def app_bert_stage(self, ctx, seq):
+        """m17-demod's decode_bert handler (the real function, in-process) on packed BERT payloads: consecutive 197-bit cuts of the sequence
+        from every phase class, packed as to_byte_array packs them; must lock within the first frame with zero errors (theorem
+        bert_end_to_end), and agree with the model App.bertBits + Prbs.run on arbitrary bytes too"""
+        from lib import demodlib
+        from lib import m17spec as S
+        demod = demodlib.drivers()[0]
+        rng = ctx.rng
+        quick = ctx.tier == "quick"
+        lines, want = [], []
+        for p in (list(range(0, 511, 7)) if quick else list(range(511))):
+            nfr = rng.choice([1, 2, 3, 27])
+            bs = []
+            for k in range(nfr):
+                bits = [seq[(p + 197 * k + i) % 511] for i in range(197)]
+                bs += list(S.pack(bits))
+            lines.append("app_bert " + " ".join(map(str, bs))); want.append(nfr)
+        for _ in range(40 if quick else 1000):
+            nfr = rng.randrange(1, 5)
+            lines.append("app_bert " + " ".join(str(rng.randrange(256)) for _ in range(25 * nfr))); want.append(None)
+        impl = ctx.run_impl(demod, lines, "app-bert")
+        for ln, a, nfr in zip(lines, impl, want):
+            ctx.count(ln[:120], nontrivial=True)
+            ctx.stat("app-bert:" + ("sequence" if nfr else "random-bytes"))
+            f = a.split()
+            if nfr and len(f) == 3:
+                if f[0] != "1" or f[1] != "0" or not (18 + 197 * nfr - 27 <= int(f[2]) <= 197 * nfr):
+                    ctx.violate("app-bert:clean", f"{nfr} clean BERT payload(s) through m17-demod's decode_bert: sync={f[0]} errors={f[1]} bits={f[2]}; "
+                                f"must lock within the first frame with 0 errors", {"stream": "app-bert", "ops": [ln], "impl": a})
+        if ctx.model_ok:
+            model = ctx.run_model(lines)
+            ctx.compare("app-bert", lines, impl, model, oracle=lambda ln, a: None, sig=lambda ln: "frames")
 
     def run(self, ctx):
         exe = self.impl_driver(ctx)
@@ -111,6 +153,7 @@ class C18(Prop):
                     if not synced or nerr != len(es) or not (n - 9 <= nbits <= n):
                         ctx.violate("prbs:count", f"sparse error pattern ({len(es)} errors, no 128-window with 25): sync={synced} errors={nerr} bits={nbits} (expected {len(es)} / {n-9}..{n})",
                                     {"stream": "prbs", "ops": [ln], "impl": a})
+        self.app_bert_stage(ctx, seq)
         if ctx.model_ok:
             model = ctx.run_model(lines)
             ctx.compare("prbs", lines, impl, model, oracle=lambda ln, a: None, sig=lambda ln: "scenario")
